@@ -380,6 +380,10 @@ fn spline_strat<T: Scalar, D: Dimension + ndarray::RemoveAxis>(
 fn bilinear_strat(ext: bool) -> Bilinear {
     match mix_bits(0, 3) {
         1 => Bilinear::new().extrapolate(!ext).extrapolate(ext),
+        2 => Bilinear::default().extrapolate(ext),
+        // the documented default is "no extrapolation": `new()` and `Default::default()` alone must give exactly that
+        3 if !ext && mix_bits(2, 1) == 0 => Bilinear::default(),
+        3 if !ext => Bilinear::new(),
         _ => Bilinear::new().extrapolate(ext),
     }
 }
@@ -388,6 +392,8 @@ fn linear_strat(ext: bool) -> Linear {
     match mix_bits(0, 3) {
         1 => Linear::new().extrapolate(!ext).extrapolate(ext),
         2 => Linear::default().extrapolate(ext),
+        3 if !ext && mix_bits(2, 1) == 0 => Linear::default(),
+        3 if !ext => Linear::new(),
         _ => Linear::new().extrapolate(ext),
     }
 }
